@@ -145,6 +145,22 @@ pub fn run(seed: u64, tier: &str, w: &mut dyn Write) -> usize {
             _ => { let mut v = vec![]; let mut left = db; while left > 0 && v.len() < 3 { let a = 1 + r.below(left.min(3) as u64) as usize; v.push(a); left -= a; if r.coin() { break } } FriReductionStrategy::Fixed(v) }
         }
     };
+    // FriReductionStrategy::reduction_arity_bits against Model/FriStrategy.v
+    let nar = if tier == "thorough" { 1500 } else { 250 };
+    for _ in 0..nar {
+        let d = r.below(24) as usize; let rb = r.below(6) as usize; let c = r.below(8) as usize; let q = 1 + r.below(100) as usize;
+        let (strat, mut args): (FriReductionStrategy, Vec<u64>) = match r.below(4) {
+            0 => { let k = r.below(4) as usize; let v: Vec<usize> = (0..k).map(|_| r.below(6) as usize).collect();
+                   let mut a = vec![0, k as u64]; a.extend(v.iter().map(|x| *x as u64)); (FriReductionStrategy::Fixed(v), a) }
+            1 | 2 => { let a = 1 + r.below(6) as usize; let f = r.below(8) as usize; (FriReductionStrategy::ConstantArityBits(a, f), vec![1, a as u64, f as u64]) }
+            _ => { if r.coin() { (FriReductionStrategy::MinSize(None), vec![2, 0]) } else { let m = 1 + r.below(5) as usize; (FriReductionStrategy::MinSize(Some(m)), vec![2, 1, m as u64]) } }
+        };
+        args.extend([d as u64, rb as u64, c as u64, q as u64]);
+        let res = catch_unwind(AssertUnwindSafe(|| strat.reduction_arity_bits(d, rb, c, q)));
+        let out = match res { Ok(v) => { let mut o = vec![v.len() as u64]; o.extend(v.iter().map(|x| *x as u64)); o.iter().map(|x| x.to_string()).collect::<Vec<_>>().join(" ") } Err(_) => "panic".to_string() };
+        writeln!(w, "{}", line("aritybits", &args, &out)).unwrap();
+        n += 1;
+    }
     let mut dumped = 0;
     for si in 0..nshapes {
         let degree_bits = 2 + r.below(6) as usize;
@@ -171,6 +187,17 @@ pub fn run(seed: u64, tier: &str, w: &mut dyn Write) -> usize {
             }
         };
         emit_model(w, &mut dumped, &inst.openings, &chs, &proof, code);
+        // the model PROVER (Model/FriProver.v) must produce the same proof as prove_openings
+        if !hiding && degree_bits <= 6 && code == 1 {
+            let mut o = vec![];
+            dump(&mut o, &inst, &inst.openings, &chs, &proof);
+            o.push(inst.batches.len() as u64);
+            for b in &inst.batches {
+                o.push(b.polynomials.len() as u64);
+                for p in &b.polynomials { o.push(p.coeffs.len() as u64); o.extend(p.coeffs.iter().map(|x| x.to_canonical_u64())); }
+            }
+            writeln!(w, "{}", line("friprove", &o, "1")).unwrap();
+        }
         // (a) wrong claimed opening: prover runs honestly on the real polynomials, claim differs
         {
             let mut op2 = FriOpenings { batches: inst.openings.batches.iter().map(|b| FriOpeningBatch { values: b.values.clone() }).collect() };
